@@ -1,7 +1,262 @@
 import Rare.Base.Proto
+import Rare.Model.C14
+/-!
+Line protocol of property C14 (see `harness/corr/c14.go` for the Go side).
+
+`Float` appears only in this file: the model (`Rare/Model/C14.lean`) is polymorphic in the
+`float64` operations (`Arith α`); here they are Lean's IEEE doubles, with Go's pure-Go
+`math.Log`/`Log2`/`Log10` ported operation by operation (amd64 has no assembly for them), so
+that the palette indices of the log scalers can be compared exactly.  `math.Pow` (heatmap legend of a
+log scale) is not ported: both sides replace that one line by `~`.
+
+Ops: `scale`, `barw`, `stack`, `cell`, `strlen`, `hdr`, `tablew`, `render histo|bars|table|heat|spark`.
+-/
 namespace Rare.Drv.C14
+open Rare Rare.C14 Rare.C20 Rare.Proto
+
+/-! ### Go's math.Log / Log2 / Log10 on IEEE doubles -/
+
+def fb (n : UInt64) : Float := Float.ofBits n
+
+/-- `math.log` (FreeBSD e_log.c port), for finite `x > 0` -/
+def goLog (x : Float) : Float :=
+  let ln2Hi := fb 0x3fe62e42fee00000
+  let ln2Lo := fb 0x3dea39ef35793c76
+  let l1 := fb 0x3fe5555555555593
+  let l2 := fb 0x3fd999999997fa04
+  let l3 := fb 0x3fd2492494229359
+  let l4 := fb 0x3fcc71c51d8e78af
+  let l5 := fb 0x3fc7466496cb03de
+  let l6 := fb 0x3fc39a09d078c69f
+  let l7 := fb 0x3fc2f112df3e5244
+  let (f1, ki) := x.frExp
+  let (f1, ki) := if f1 < fb 0x3fe6a09e667f3bcd then (f1 * 2, ki - 1) else (f1, ki)
+  let f := f1 - 1
+  let k := Float.ofInt ki
+  let s := f / (2 + f)
+  let s2 := s * s
+  let s4 := s2 * s2
+  let t1 := s2 * (l1 + s4 * (l3 + s4 * (l5 + s4 * l7)))
+  let t2 := s4 * (l2 + s4 * (l4 + s4 * l6))
+  let r := t1 + t2
+  let hfsq := 0.5 * f * f
+  k * ln2Hi - ((hfsq - (s * (hfsq + r) + k * ln2Lo)) - f)
+
+def goLog10 (x : Float) : Float := goLog x * fb 0x3fdbcb7b1526e50e
+
+def goLog2 (x : Float) : Float :=
+  let (frac, exp) := x.frExp
+  if frac == 0.5 then Float.ofInt (exp - 1)
+  else goLog frac * fb 0x3ff71547652b82fe + Float.ofInt exp
+
+/-- Go `int64(f)` on amd64 (CVTTSD2SQ): truncation; NaN and out-of-range give MinInt64 -/
+def goTrunc (f : Float) : Int :=
+  if f.isNaN || f >= 9223372036854775808.0 || f < -9223372036854775808.0 then minInt64
+  else f.toInt64.toInt
+
+def floatArith : Arith Float :=
+  { ofInt := Float.ofInt, add := (· + ·), sub := (· - ·), mul := (· * ·), div := (· / ·),
+    floor := Float.floor, ceil := Float.ceil, le := fun a b => decide (a ≤ b), beq := fun a b => a == b,
+    trunc := goTrunc, log2 := goLog2, log10 := goLog10,
+    pow2 := fun f => Float.pow 2 f, pow10 := fun f => Float.pow 10 f }
+
+/-! ### parsing -/
+
+def bit (s : String) : Option Bool := if s = "1" then some true else if s = "0" then some false else none
+
+def scaler? (s : String) : Option Scaler :=
+  if s = "linear" then some .linear else if s = "log2" then some .log2 else if s = "log10" then some .log10 else none
+
+def fmt? (s : String) : Option Fmt := if s = "raw" then some .raw else if s = "hi" then some .hi else none
+
+def ints? (s : String) (sep : String) : Option (List Int) :=
+  if s = "." then some [] else (s.splitOn sep).mapM String.toInt?
+
+/-- phases: `|`-separated, each `.` or `,`-separated samples of `:`-separated integers -/
+def phases? (s : String) : Option (List (List (List Int))) :=
+  (s.splitOn "|").mapM fun ph => if ph = "." then some [] else (ph.splitOn ",").mapM fun sm => ints? sm ":"
+
+def okLines (vt : VirtualTerm) : String := "ok " ++ hexList vt.lines
+
+def answer (r : Res String) : String :=
+  match r with
+  | .ok s => s
+  | .error _ => "panic"
+
+def A := floatArith
+
+/-! ### render ops -/
+
+def nat! (i : Int) : Nat := i.toNat
+
+def renderHisto (env : Env) (sc : Scaler) (fm : Fmt) (bar pct : Bool) (maxLines : Int) (keys : List Bytes)
+    (phases : List (List (List Int))) : Res String := do
+  let h ← Histo.new maxLines bar pct sc fm
+  let (_, _, vt) ← phases.foldlM (fun (st : Cells × Histo × VirtualTerm) ph => do
+    let cells := ph.foldl (fun (c : Cells) sm => match sm with
+      | [k, inc] => c.sample (nat! k) 0 inc
+      | _ => c) st.1
+    -- cmd/histo.go writeHistoOutput
+    let present := cells.rows
+    let items ← if (present.length : Int) < maxLines then pure present else sliceTo present maxLines
+    let total := cells.sum
+    let (h, vt) ← st.2.1.updateTotal A env st.2.2 total
+    let (h, vt, _) ← items.foldlM (fun (s : Histo × VirtualTerm × Int) k => do
+      let (h, vt) ← s.1.writeForLine A env s.2.1 s.2.2 (keyAt keys k) (cells.value k 0)
+      pure (h, vt, s.2.2 + 1)) (h, vt, (0 : Int))
+    let vt ← h.writeFooter vt 0 (ascii "F")
+    pure (cells, h, vt)) (([] : Cells), h, VirtualTerm.new)
+  pure (okLines vt)
+
+def renderBars (env : Env) (sc : Scaler) (fm : Fmt) (stacked : Bool) (barSize : Int) (keys subs : List Bytes)
+    (phases : List (List (List Int))) : Res String := do
+  let g : BarGraph := { stacked, barSize, scaler := sc, fmt := fm }
+  let (_, _, vt) ← phases.foldlM (fun (st : Cells × BarGraph × VirtualTerm) ph => do
+    let cells := ph.foldl (fun (c : Cells) sm => match sm with
+      | [k, s, inc] => c.sample (nat! k) (nat! s) inc
+      | _ => c) st.1
+    -- cmd/bargraph.go
+    let subIdx := cells.cols
+    let (g, vt) ← st.2.1.setKeys env st.2.2 (subIdx.map (keyAt subs))
+    let (g, vt, _) ← cells.rows.foldlM (fun (s : BarGraph × VirtualTerm × Int) k => do
+      let (g, vt) ← s.1.writeBarTop A env s.2.1 s.2.2 (keyAt keys k) (subIdx.map (cells.value k))
+      pure (g, vt, s.2.2 + 1)) (g, vt, (0 : Int))
+    let vt ← g.writeFooter vt 0 (ascii "F")
+    pure (cells, g, vt)) (([] : Cells), g, VirtualTerm.new)
+  pure (okLines vt)
+
+def sampleTable (c : Cells) (ph : List (List Int)) : Cells :=
+  ph.foldl (fun (c : Cells) sm => match sm with
+    | [r, k, inc] => c.sample (nat! r) (nat! k) inc
+    | _ => c) c
+
+def renderTable (env : Env) (fm : Fmt) (rowTot colTot : Bool) (nrows ncols : Int) (rkeys ckeys : List Bytes)
+    (phases : List (List (List Int))) : Res String := do
+  let d ← DataTable.new ncols nrows rowTot colTot fm
+  let (_, _, vt) ← phases.foldlM (fun (st : Cells × DataTable × VirtualTerm) ph => do
+    let cells := sampleTable st.1 ph
+    let (d, vt) ← st.2.1.writeTable env st.2.2 rkeys ckeys cells
+    let vt ← d.table.writeFooter vt 0 (ascii "F")
+    pure (cells, d, vt)) (([] : Cells), d, VirtualTerm.new)
+  pure (okLines vt)
+
+def renderHeat (env : Env) (sc : Scaler) (fm : Fmt) (nrows ncols : Int) (fix fmin fmax : Int) (rkeys ckeys : List Bytes)
+    (phases : List (List (List Int))) : Res String := do
+  -- cmd/heatmap.go, in its order: the first legend is drawn with the default scaler and formatter
+  let h : Heatmap := { rowCount := nrows, colCount := ncols, fixedMin := fix % 2 = 1, fixedMax := fix / 2 % 2 = 1 }
+  let (h, vt) ← if h.fixedMin || h.fixedMax then h.updateMinMax A env VirtualTerm.new fmin fmax else pure (h, VirtualTerm.new)
+  let h := { h with scaler := sc, fmt := fm }
+  let (_, _, vt) ← phases.foldlM (fun (st : Cells × Heatmap × VirtualTerm) ph => do
+    let cells := sampleTable st.1 ph
+    let (h, vt) ← st.2.1.writeTable A env st.2.2 rkeys ckeys cells
+    let vt ← h.writeFooter vt 0 (ascii "F")
+    pure (cells, h, vt)) (([] : Cells), h, vt)
+  -- the legend of a log scale goes through math.Pow: not compared
+  let lines := if sc != .linear then (match vt.lines with | [] => [] | _ :: r => ascii "~" :: r) else vt.lines
+  pure ("ok " ++ hexList lines)
+
+def renderSpark (env : Env) (sc : Scaler) (fm : Fmt) (nrows ncols : Int) (trunc : Bool) (rkeys ckeys : List Bytes)
+    (phases : List (List (List Int))) : Res String := do
+  let s ← Spark.new nrows ncols sc fm
+  let (_, _, vt) ← phases.foldlM (fun (st : Cells × Spark × VirtualTerm) ph => do
+    let cells := sampleTable st.1 ph
+    -- cmd/spark.go: trim the columns that are not displayed
+    let cells ← if trunc then do
+        let keep := cells.cols
+        if (keep.length : Int) > ncols then
+          let keep ← sliceFrom keep (keep.length - ncols)
+          pure (cells.keepCols keep)
+        else pure cells
+      else pure cells
+    let (s, vt) ← st.2.1.writeTable A env st.2.2 rkeys ckeys cells
+    let vt ← s.writeFooter vt 0 (ascii "F")
+    pure (cells, s, vt)) (([] : Cells), s, VirtualTerm.new)
+  pure (okLines vt)
+
+def parseStep (s : String) : Option (Int × List Bytes) :=
+  match s.splitOn ":" with
+  | [n, cells] => do
+    let rn ← n.toInt?
+    let cs ← decHexList cells
+    pure (rn, cs)
+  | _ => none
 
 def handle : List String → String
+  | ["scale", sc, v, mn, mx] =>
+    match scaler? sc, v.toInt?, mn.toInt?, mx.toInt? with
+    | some k, some v, some mn, some mx =>
+      let u := scale A k v mn mx
+      s!"ok {u.toBits.toNat} b16={bucket A 16 u} b10={bucket A 10 u} b9={bucket A 9 u} b4={bucket A 4 u} l50={lengthVal A 50 u} l450={lengthVal A 450 u}"
+    | _, _, _, _ => "bad-args"
+  | ["barw", uni, maxLen, sc, v, mn, mx] =>
+    match bit uni, maxLen.toInt?, scaler? sc, v.toInt?, mn.toInt?, mx.toInt? with
+    | some u, some ml, some k, some v, some mn, some mx =>
+      answer (do let b ← barWrite A { color := false, unicode := u } (scale A k v mn mx) ml; pure ("ok " ++ Hex.enc b))
+    | _, _, _, _, _, _ => "bad-args"
+  | ["stack", col, uni, maxVal, maxLen, vals] =>
+    match bit col, bit uni, maxVal.toInt?, maxLen.toInt?, ints? vals "," with
+    | some c, some u, some mv, some ml, some vs =>
+      answer (do let b ← barWriteStacked { color := c, unicode := u } mv ml vs; pure ("ok " ++ Hex.enc b))
+    | _, _, _, _, _ => "bad-args"
+  | ["cell", col, uni, sc, v, mn, mx] =>
+    match bit col, bit uni, scaler? sc, v.toInt?, mn.toInt?, mx.toInt? with
+    | some c, some u, some k, some v, some mn, some mx =>
+      let env : Env := { color := c, unicode := u }
+      let x := scale A k v mn mx
+      answer (do
+        let h ← heatWrite A env x
+        let s ← sparkWrite A env x
+        pure ("ok " ++ Hex.enc h ++ " " ++ Hex.enc s))
+    | _, _, _, _, _, _ => "bad-args"
+  | ["strlen", col, s] =>
+    match bit col, Hex.dec s with
+    | some c, some b => s!"ok {strLen { color := c, unicode := true } b}"
+    | _, _ => "bad-args"
+  | ["hdr", col, n, names] =>
+    match bit col, n.toInt?, decHexList names with
+    | some c, some n, some ns =>
+      let h : Heatmap := { rowCount := 1, colCount := n }
+      answer (do
+        let (t, cc) ← h.headerText { color := c, unicode := true } ns
+        pure s!"ok {cc} {Hex.enc t}")
+    | _, _, _ => "bad-args"
+  | ["tablew", col, maxCols, maxRows, script] =>
+    match bit col, maxCols.toInt?, maxRows.toInt?, (if script = "." then some [] else (script.splitOn "/").mapM parseStep) with
+    | some c, some mc, some mr, some steps =>
+      let env : Env := { color := c, unicode := true }
+      answer (do
+        let t ← TableWriter.new mc mr
+        let (t, vt) ← steps.foldlM (fun (st : TableWriter × VirtualTerm) (s : Int × List Bytes) =>
+          st.1.writeRow env st.2 s.1 s.2) (t, VirtualTerm.new)
+        let vt ← t.writeFooter vt 0 (ascii "F")
+        pure (okLines vt))
+    | _, _, _, _ => "bad-args"
+  | ["render", "histo", col, uni, sc, fm, bar, pct, maxLines, keys, ph] =>
+    match bit col, bit uni, scaler? sc, fmt? fm, bit bar, bit pct, maxLines.toInt?, decHexList keys, phases? ph with
+    | some c, some u, some k, some f, some b, some p, some ml, some ks, some phs =>
+      answer (renderHisto { color := c, unicode := u } k f b p ml ks phs)
+    | _, _, _, _, _, _, _, _, _ => "bad-args"
+  | ["render", "bars", col, uni, sc, fm, stacked, barSize, keys, subs, ph] =>
+    match bit col, bit uni, scaler? sc, fmt? fm, bit stacked, barSize.toInt?, decHexList keys, decHexList subs, phases? ph with
+    | some c, some u, some k, some f, some st, some bs, some ks, some ss, some phs =>
+      answer (renderBars { color := c, unicode := u } k f st bs ks ss phs)
+    | _, _, _, _, _, _, _, _, _ => "bad-args"
+  | ["render", "table", col, fm, rt, ct, nrows, ncols, rkeys, ckeys, ph] =>
+    match bit col, fmt? fm, bit rt, bit ct, nrows.toInt?, ncols.toInt?, decHexList rkeys, decHexList ckeys, phases? ph with
+    | some c, some f, some rt, some ct, some nr, some nc, some rk, some ck, some phs =>
+      answer (renderTable { color := c, unicode := true } f rt ct nr nc rk ck phs)
+    | _, _, _, _, _, _, _, _, _ => "bad-args"
+  | ["render", "heat", col, uni, sc, fm, nrows, ncols, fix, fmin, fmax, rkeys, ckeys, ph] =>
+    match bit col, bit uni, scaler? sc, fmt? fm, nrows.toInt?, ncols.toInt?, fix.toInt?, fmin.toInt?, fmax.toInt?,
+        decHexList rkeys, decHexList ckeys, phases? ph with
+    | some c, some u, some k, some f, some nr, some nc, some fx, some mn, some mx, some rk, some ck, some phs =>
+      answer (renderHeat { color := c, unicode := u } k f nr nc fx mn mx rk ck phs)
+    | _, _, _, _, _, _, _, _, _, _, _, _ => "bad-args"
+  | ["render", "spark", col, uni, sc, fm, nrows, ncols, trunc, rkeys, ckeys, ph] =>
+    match bit col, bit uni, scaler? sc, fmt? fm, nrows.toInt?, ncols.toInt?, bit trunc, decHexList rkeys, decHexList ckeys, phases? ph with
+    | some c, some u, some k, some f, some nr, some nc, some tr, some rk, some ck, some phs =>
+      answer (renderSpark { color := c, unicode := u } k f nr nc tr rk ck phs)
+    | _, _, _, _, _, _, _, _, _, _ => "bad-args"
   | _ => "bad-op"
 
 end Rare.Drv.C14
